@@ -125,7 +125,7 @@ Writable(t, v, k) ==
 (* ------------------------------------------------------------------ *)
 (* Histories                                                           *)
 (* ------------------------------------------------------------------ *)
-N == 2     \* latest version; programs exist at versions 0..N
+N == 3     \* latest version; programs exist at versions 0..N  (3 > the library format version 2)
 
 NoAs == P("unit")
 APlain          == Plain
@@ -136,15 +136,16 @@ AConv(c, old)   == FA(c, INF, "no", "default", FALSE, 0, c - 1, old)   \* conver
 \* (type, attribute) choices for one field
 FieldHist ==
     { <<ty, APlain>> : ty \in {P("u8"), P("u32"), Str} }
-    \cup { <<ty, AAdd(f, df)>> : ty \in {P("u8"), P("u16"), Str}, f \in 1..N, df \in {"default", "fn"} }
+    \cup { <<ty, AAdd(f, df)>> : ty \in {P("u8"), P("u16"), Str}, f \in {1, 3}, df \in {"default", "fn"} }
     \cup { <<P("u32"), AAdd(1, "val")>>, <<Vec("Vec", P("u8")), AAdd(2, "default")>>, <<Opt(P("u16")), AAdd(1, "fn")>> }
-    \cup { <<ty, ARem(0, to, rm)>> : ty \in {P("u8"), P("u32"), Str}, to \in 0..(N - 1), rm \in {"removed", "abi"} }
+    \cup { <<ty, ARem(0, to, rm)>> : ty \in {P("u8"), P("u32"), Str}, to \in {0, 2}, rm \in {"removed", "abi"} }
     \cup { <<P("u16"), ARem(1, 1, rm)>> : rm \in {"removed", "abi"} }
-    \cup { <<P("u32"), AConv(c, P("u8"))>> : c \in 1..N }
+    \cup { <<P("u32"), AConv(c, P("u8"))>> : c \in {1, 3} }
     \cup { <<P("u64"), AConv(1, P("u16"))>>, <<Opt(P("u8")), AConv(2, P("u8"))>> }
 PlainFields == { <<P("u8"), APlain>>, <<Str, APlain>>, <<P("u16"), APlain>> }
 AbiFieldHist == { h \in FieldHist : h[2].rm # "removed" /\ ~HasAs(h[2]) }
 
+TwoHist == { <<P("u8"), AAdd(f, "default")>> : f \in 1..N } \cup { <<P("u8"), ARem(0, to, "abi")>> : to \in 0..(N - 1) }
 MkStruct(repr, hs) == StructA(repr, [m \in 1..Len(hs) |-> hs[m][1]], [m \in 1..Len(hs) |-> hs[m][2]])
 
 HStructsQ ==
@@ -153,6 +154,8 @@ HStructsQ ==
     \cup { MkStruct("C", <<a, h, b>>) : a \in {<<P("u8"), APlain>>}, h \in FieldHist, b \in PlainFields }
     \cup { MkStruct("C", <<h, g>>) : h \in {<<P("u8"), ARem(0, 0, "abi")>>, <<P("u8"), AAdd(1, "default")>>, <<P("u32"), AConv(1, P("u8"))>>},
                                      g \in FieldHist }
+    \* two versioned fields whose order of declaration differs from the order of their versions
+    \cup { MkStruct(r, <<h, g>>) : r \in {"Rust", "C"}, h \in TwoHist, g \in TwoHist }
 HStructsT ==
     HStructsQ
     \cup { MkStruct(r, <<h, g>>) : r \in {"Rust", "C"}, h \in FieldHist, g \in FieldHist }
@@ -161,8 +164,8 @@ HStructsT ==
 \* enums: variants appended over time, fields with history inside a variant
 HEnums ==
     { Enum(r, <<Var(0, <<>>), Var(1, <<P("u8")>>)>>) : r \in {"", "u8"} }
-    \cup { Enum(r, <<Var(0, <<P("u16")>>), Var(0, <<>>), Var(2, <<Str>>)>>) : r \in {"", "u16"} }
-    \cup { Enum("", <<Var(0, <<P("u8")>>), Var(1, <<>>), Var(2, <<>>)>>) }
+    \cup { Enum(r, <<Var(0, <<P("u16")>>), Var(0, <<>>), Var(3, <<Str>>)>>) : r \in {"", "u16"} }
+    \cup { Enum("", <<Var(0, <<P("u8")>>), Var(1, <<>>), Var(3, <<>>)>>) }
     \cup { Enum(r, <<T("var", "", 0, <<h[1], P("u8")>>, <<h[2], Plain>>), Var(0, <<>>)>>) :
              r \in {"", "u32"}, h \in {<<P("u32"), ARem(0, 0, "abi")>>, <<P("u32"), ARem(0, 0, "removed")>>,
                                        <<P("u16"), AAdd(1, "default")>>, <<P("u32"), AConv(1, P("u8"))>>} }
